@@ -68,6 +68,15 @@ func (r *Row) Add(c Cell) *Row {
 	ptr.inRow = r
 	ptr.columnNum = column
 	invokePropertyCallbacks(r.rowCellCallbacks, CB_AT_ADD, ptr, r.ErrorContainer)
+	if t := r.inTable; t != nil {
+		// the row is already part of a table: keep the table's column
+		// bookkeeping and add-time callbacks in step with the new cell
+		t.resizeColumnsAtLeast(column)
+		if col := ptr.columnOfTable(); col != nil {
+			invokePropertyCallbacks(col.cellCallbacks, CB_AT_ADD, ptr, r)
+		}
+		invokePropertyCallbacks(t.tableCellCallbacks, CB_AT_ADD, ptr, r)
+	}
 	return r
 }
 
